@@ -39,17 +39,17 @@ type inner struct {
 }
 
 type program struct {
-	root  []*evmx.Node
-	addrs []common.Address // frame contracts in use (root first)
-	meta  map[int]*meta    // pre node id -> method info
-	nodes map[int]*evmx.Node
-	ctxOf map[int]common.Address // node id -> storage/caller context address of the frame executing it
-	inner map[int]*inner         // pre node id -> EVM call made from inside its native action
-	used  map[int]bool           // hook tokens in use
-	next  int
+	root   []*evmx.Node
+	addrs  []common.Address // frame contracts in use (root first)
+	meta   map[int]*meta    // pre node id -> method info
+	nodes  map[int]*evmx.Node
+	ctxOf  map[int]common.Address // node id -> storage/caller context address of the frame executing it
+	inner  map[int]*inner         // pre node id -> EVM call made from inside its native action
+	used   map[int]bool           // hook tokens in use
+	next   int
 	direct bool // the transaction calls the precompile itself (root = one pre node, sender = env.direct)
-	body  func(depth int, ctx common.Address, static bool) []*evmx.Node
-	depth int // depth of the frame being generated (for genPre)
+	body   func(depth int, ctx common.Address, static bool) []*evmx.Node
+	depth  int // depth of the frame being generated (for genPre)
 }
 
 // byte code of a hook token: CALL(gas, hook, 0, 0, 0, 0, 0); success ? return uint256(1) : REVERT
